@@ -42,6 +42,12 @@ Section WithMac.
   Qed.
 End WithMac.
 
+Theorem unsigned_error_response_total_now (mac : alg -> bytes -> bytes -> bytes) k req now code :
+  server_request mac k req now = Err (SE_UNSIGNED + code) ->
+  exists rc, unsigned_error_rcode req code = Ok rc /\
+    (code = RC_FORMERR -> rc = RC_FORMERR) /\ (code <> RC_FORMERR -> rc = RC_NOTAUTH).
+Proof. apply unsigned_error_response_total. reflexivity. Qed.
+
 Example unsigned_error_ex :
   unsigned_error_rcode [0;0;0;0;0;0;0;0;0;0;0;1;0] RC_BADSIG =
     (if formerr_plain_response then Panic P_EXPECT_TSIG else Panic P_EXPECT_TSIG).
